@@ -113,20 +113,35 @@ def isSubseq : List String → List String → Bool
   | _ :: _, [] => false
   | a :: as, b :: bs => if a == b then isSubseq as bs else isSubseq (a :: as) bs
 
+/-- clause `crash`: the first crash / sanitizer line, if any -/
+def clauseCrash (es : List Ev) : List String :=
+  ((es.filter isCrash).map (fun e => match e with | .crash why => s!"crash {why}" | _ => "crash")).take 1
+
+/-- clause `report`: every uncaught error is reported to the master at once -/
+def clauseReport (es : List Ev) : List String :=
+  if reportOk es then [] else ["report uncaught error not reported to the master"]
+
+/-- clause `liveness` (cycle markers) -/
+def clauseCycles (es : List Ev) : List String :=
+  if cyclesOk 1 es then [] else ["liveness cycle-markers"]
+
+/-- clause `liveness` (the loop was left in an orderly way) -/
+def clauseExit (x : Expect) (es : List Ev) : List String :=
+  match hasExit es with
+  | none => ["liveness no-exit"]
+  | some true =>
+    -- stdin of the harness console is a pipe: losing the console user (destructed, or its connection rejected
+    -- by the master) is the documented shutdown request
+    if x.console && (!(destructedUsers es).isEmpty || (usersOfConnects es).contains none) then []
+    else ["liveness unexpected-shutdown"]
+  | some false => []
+
 def judgeEv (x : Expect) (es : List Ev) : List String :=
-  let crashes := (es.filter isCrash).map (fun e => match e with | .crash why => s!"crash {why}" | _ => "crash")
-  if !crashes.isEmpty then crashes.take 1 else
+  if !(clauseCrash es).isEmpty then clauseCrash es else
   let ex := hasExit es
-  let v1 := match ex with
-    | none => ["liveness no-exit"]
-    | some true =>
-      -- stdin of the harness console is a pipe: losing the console user (destructed, or its connection rejected
-      -- by the master) is the documented shutdown request
-      if x.console && (!(destructedUsers es).isEmpty || (usersOfConnects es).contains none) then []
-      else ["liveness unexpected-shutdown"]
-    | some false => []
-  let v2 := if cyclesOk 1 es then [] else ["liveness cycle-markers"]
-  let v3 := if reportOk es then [] else ["report uncaught error not reported to the master"]
+  let v1 := clauseExit x es
+  let v2 := clauseCycles es
+  let v3 := clauseReport es
   let shut := ex == some true
   let v4 := match finalHbs es with
     | none => ["heartbeats no-observation"]
